@@ -414,6 +414,55 @@ def imports_stylesheet(rng):
     return {"templates": templates, "gvars": [], "keys": [], "strip": [], "mods": mods}
 
 
+def multidoc_stylesheet(rng):
+    """The multi-document family (12.1): document('d2.xml') / document('d3.xml') name two further source documents.  Node identity of a
+    loaded document, keys, id(), xsl:number, sorting and template application inside a loaded document, strip-space applied to it,
+    comparisons across documents.  Node-sets spanning several documents are only counted, never iterated (their relative order is
+    implementation-dependent); templates for the loaded documents live in mode x, so the rule for "/" is not re-entered."""
+    P_ = lambda *steps, **kw: path(list(steps), **kw)
+    z = {"k": "fin", "neg": False, "m": 0}
+    D = lambda k: fn("document", lit("d%d.xml" % k))
+    def inD(k, *steps):
+        return path(list(steps), start=D(k))
+    tag = lambda t: {"i": "text", "v": cps(t)}
+    vo = lambda e: {"i": "value-of", "sel": e}
+    t = lambda: rng.choice([t_name("a"), t_name("b"), t_name("c"), T_ANY])
+    show = [tag("["), vo(fn("position")), tag("/"), vo(fn("last")), tag(":"), vo(fn("name")), tag("#"), vo(P_(at(t_name("id")))), tag("]")]
+    pieces = [
+        lambda k: [tag("n="), vo(fn("count", inD(k, DOS, ch(T_NODE))))],
+        lambda k: [tag("same="), vo(fn("count", bin_("|", D(k), D(k)))), tag(","), vo(fn("count", bin_("|", D(2), D(3)))), tag(","),
+                   vo(fn("count", bin_("|", P_(abs_=True), D(k))))],
+        lambda k: [{"i": "for-each", "sel": inD(k, DOS, ch(t())), "sorts": [], "body": show + [tag("k="), vo(fn("count", fn("key", lit("k"), P_(at(t_name("x"))))))]}],
+        lambda k: [{"i": "for-each", "sel": inD(k, DOS, ch(t())), "sorts": [{"sel": fn("name"), "dtype": "text", "desc": rng.random() < 0.5},
+                                                                               {"sel": fn("count", P_(ch(T_NODE))), "dtype": "number", "desc": rng.random() < 0.5}], "body": show}],
+        lambda k: [{"i": "for-each", "sel": D(k), "sorts": [], "body": [tag("key="), vo(fn("count", fn("key", lit("k"), lit("1")))), tag(" id="), vo(fn("name", fn("id", lit("i2")))),
+                                                                        tag(" root="), vo(fn("count", P_(abs_=True))), vo(fn("name", P_(ch(T_ANY), abs_=True)))]}],
+        lambda k: [{"i": "apply-templates", "hasSel": True, "sel": inD(k, ch(T_ANY)), "mode": "x", "sorts": [], "params": []}],
+        lambda k: [{"i": "apply-templates", "hasSel": True, "sel": inD(k, DOS, ch(t())), "mode": "x",
+                    "sorts": [{"sel": P_(at(t_name("x"))), "dtype": rng.choice(["text", "number"]), "desc": rng.random() < 0.5}], "params": []}],
+        lambda k: [{"i": "variable", "name": "d", "hasSel": True, "sel": D(k), "body": []},
+                   vo(fn("count", bin_("|", path([DOS, ch(t_name("a"))], start=var("d")), path([DOS, ch(t_name("b"))], start=var("d"))))),
+                   {"i": "copy-of", "sel": path([ch(T_ANY), ch(T_ANY, num(1))], start=var("d"))}],
+        lambda k: [tag("eq="), vo(bin_("=", P_(DOS, ch(t_name("b")), abs_=True), inD(k, DOS, ch(t_name("b"))))), tag(" ws="), vo(fn("count", inD(k, DOS, ch(T_TEXT))))],
+        lambda k: [{"i": "for-each", "sel": inD(k, DOS, ch(t())), "sorts": [], "body": [tag("("), {"i": "number", "instr": {"level": rng.choice(["single", "multiple", "any"]),
+                    "hasCount": True, "count": bin_("|", P_(ch(t_name("a"))), P_(ch(t_name("b")))), "hasFrom": False, "from": P_(ch(t_name("a")))}, "fmt": cps("1.1")}, tag(")")]}],
+    ]
+    body = []
+    for _ in range(rng.choice([2, 3, 4])):
+        body.append({"i": "lre", "name": cps(rng.choice(["p", "q"])), "attrs": [], "body": rng.choice(pieces)(rng.choice([2, 3]))})
+    templates = [
+        {"rid": 1, "hasMatch": True, "match": P_(ch(T_ANY)), "name": "", "mode": "x", "hasPrio": False, "prio": z, "params": [],
+         "body": show + ([{"i": "apply-templates", "hasSel": False, "sel": NONE, "mode": "x", "sorts": [], "params": []}] if rng.random() < 0.6 else [])},
+        {"rid": 2, "hasMatch": True, "match": P_(ch(T_TEXT)), "name": "", "mode": "x", "hasPrio": False, "prio": z, "params": [],
+         "body": [tag("{"), vo(fn("string-length", P_(step("self", T_NODE)))), tag("}")]},
+        {"rid": 3, "hasMatch": True, "match": P_(abs_=True), "name": "", "mode": "", "hasPrio": False, "prio": z, "params": [],
+         "body": [{"i": "lre", "name": cps("out"), "attrs": [], "body": body}]},
+    ]
+    keys = [{"name": "k", "match": rng.choice([P_(ch(T_ANY)), P_(ch(t_name("b")))]), "use": rng.choice([P_(at(t_name("x"))), fn("count", P_(ch(T_NODE)))])}]
+    strip = [{"strip": True, "name": rng.choice(["*", "a", "b"])}] if rng.random() < 0.5 else []
+    return {"templates": templates, "gvars": [], "keys": keys, "strip": strip, "ndocs": 2}
+
+
 # ------------------------------------------------------------------------------------------ rendering
 def s(cp):
     return "".join(chr(c) for c in cp)
@@ -565,6 +614,8 @@ def spec_stylesheet(ss):
     """the stylesheet as XSLTSem.tla sees it"""
     out = spec_form({"templates": [dict(t, mod=t.get("mod", 1)) for t in ss["templates"]], "gvars": ss["gvars"]})
     out["mods"] = ss.get("mods") or [{"id": 1, "imports": []}]
+    # document() documents: d2.xml, d3.xml, ... are documents 2, 3, ... of the forest the spec is given
+    out["docs"] = [{"uri": cps("d%d.xml" % (j + 2)), "idx": j + 2} for j in range(ss.get("ndocs", 0))]
     out["keys"] = [{"name": cps(k["name"]), "match": spec_form(k["match"]), "use": spec_form(k["use"])} for k in ss.get("keys", [])]
     out["strip"] = [{"strip": d["strip"], "prec": 1,
                      "test": {"t": "any"} if d["name"] == "*" else {"t": "name", "uri": [], "local": cps(d["name"])}} for d in ss.get("strip", [])]
